@@ -27,7 +27,7 @@ type c11Case struct {
 	Chain []string `json:"chain"`
 }
 
-var c11Ops = []string{"mem-compressed", "mem-raw", "file-compressed", "file-raw", "cli-convert-to-raw"}
+var c11Ops = []string{"mem-compressed", "mem-raw", "file-compressed", "file-raw", "cli-convert-to-raw", "cli-convert-in-place"}
 
 func init() {
 	Registry["C11"] = func() {
@@ -65,7 +65,12 @@ func tmpName(prefix string) string {
 }
 
 // c11Apply performs one operation and returns the reloaded system.
-func c11Apply(ps *prover.ProvingSystem, op string) (*prover.ProvingSystem, error) {
+func c11Apply(ps *prover.ProvingSystem, op string) (out *prover.ProvingSystem, err error) {
+	defer func() {
+		if r := recover(); r != nil {
+			out, err = nil, fmt.Errorf("panic: %v", r)
+		}
+	}()
 	switch op {
 	case "mem-compressed", "mem-raw":
 		var buf bytes.Buffer
@@ -82,12 +87,12 @@ func c11Apply(ps *prover.ProvingSystem, op string) (*prover.ProvingSystem, error
 		if n != int64(buf.Len()) {
 			return nil, fmt.Errorf("writer reports %d bytes, wrote %d", n, buf.Len())
 		}
-		out := new(prover.ProvingSystem)
-		if _, err := out.UnsafeReadFrom(bytes.NewReader(buf.Bytes())); err != nil {
+		o := new(prover.ProvingSystem)
+		if _, err := o.UnsafeReadFrom(bytes.NewReader(buf.Bytes())); err != nil {
 			return nil, fmt.Errorf("read back: %v", err)
 		}
-		return out, nil
-	case "file-compressed", "file-raw", "cli-convert-to-raw":
+		return o, nil
+	case "file-compressed", "file-raw", "cli-convert-to-raw", "cli-convert-in-place":
 		path := tmpName("c11")
 		defer os.Remove(path)
 		f, err := os.Create(path)
@@ -104,6 +109,16 @@ func c11Apply(ps *prover.ProvingSystem, op string) (*prover.ProvingSystem, error
 			return nil, fmt.Errorf("write: %v", err)
 		}
 		rd := path
+		if op == "cli-convert-in-place" {
+			// the same path as input and output (converting a keys file where it lies)
+			res, err := runCLI(nil, 10*time.Minute, "convert-to-raw", "--input", path, "--output", path)
+			if err != nil {
+				return nil, err
+			}
+			if res.Exit != 0 {
+				return nil, fmt.Errorf("convert-to-raw with input == output exits %d: %s", res.Exit, tailStr(res.Stderr))
+			}
+		}
 		if op == "cli-convert-to-raw" {
 			rd = tmpName("c11conv")
 			defer os.Remove(rd)
@@ -115,11 +130,11 @@ func c11Apply(ps *prover.ProvingSystem, op string) (*prover.ProvingSystem, error
 				return nil, fmt.Errorf("convert-to-raw exit %d: %s", res.Exit, tailStr(res.Stderr))
 			}
 		}
-		out, err := prover.ReadSystemFromFile(rd)
+		o, err := prover.ReadSystemFromFile(rd)
 		if err != nil {
 			return nil, fmt.Errorf("ReadSystemFromFile: %v", err)
 		}
-		return out, nil
+		return o, nil
 	}
 	return nil, fmt.Errorf("unknown op %s", op)
 }
@@ -289,6 +304,6 @@ func c11Body(c *ev.Ctx) {
 	c.Set("proofs_generated", st.proofs)
 	c.Set("cross_verifications", st.crossVerifies)
 	c.Set("independent_setup_rejects_foreign_proof", st.foreignRejected)
-	c.Set("rule", "chains of length <=2 (<=3 thorough) over {write compressed, write raw} x {in memory + UnsafeReadFrom, file + ReadSystemFromFile} and the CLI convert-to-raw, from a fresh setup of each mode at dims with depth != batch; every reached system must have equal dimensions, re-serialise to the same bytes as the original, prove a valid batch that the original verifies and verify the original's proof; distinct = chains whose end state passed all comparisons")
+	c.Set("rule", "chains of length <=2 (<=3 thorough) over {write compressed, write raw} x {in memory + UnsafeReadFrom, file + ReadSystemFromFile} and the CLI convert-to-raw (to another file and in place), from a fresh setup of each mode at dims with depth != batch; every reached system must have equal dimensions, re-serialise to the same bytes as the original, prove a valid batch that the original verifies and verify the original's proof; distinct = chains whose end state passed all comparisons")
 	c.Assume("byte-equality of the raw re-serialisation stands for equality of proving key, verifying key and constraint system")
 }
